@@ -137,8 +137,94 @@ def bounded_engine_cases(res):
                         res.violations.append(Violation('action-executed-twice', f"{case}: {len(log)} action executions for 3 completed runs: {dict(c)}", case))
 
 
+def serving_forwarder_cases(res):
+    """"never executes a second action for it" where the forwarder is configured to serve completions learned from peers as
+    well (local_only=False, the non-default the constructor offers): runs completing here and runs a peer reports completed,
+    interleaved — per run at most one complex event and exactly one action execution."""
+    from harness.core import Violation
+    from bobocep.cep.action import BoboAction, BoboActionHandlerBlocking
+    from bobocep.cep.engine.engine import BoboEngine
+    from bobocep.cep.engine.receiver.receiver import BoboReceiver
+    from bobocep.cep.engine.receiver.validator import BoboValidatorAll
+    from bobocep.cep.engine.decider.decider import BoboDecider
+    from bobocep.cep.engine.producer.producer import BoboProducer
+    from bobocep.cep.engine.forwarder.forwarder import BoboForwarder
+    from bobocep.cep.engine.decider.runserial import BoboRunSerial
+    from bobocep.cep.engine.producer.pubsub import BoboProducerSubscriber
+    from bobocep.cep.event import BoboEventSimple, BoboHistory
+    from bobocep.cep.gen import BoboGenEventIDUnique, BoboGenTimestampEpoch
+    from bobocep.cep.phenom import BoboPhenomenon
+    from bobocep.cep.phenom.pattern.builder import BoboPatternBuilder
+
+    class Count(BoboAction):
+        def __init__(self, name, log):
+            super().__init__(name)
+            self.log = log
+
+        def execute(self, event):
+            self.log.append(tuple(e.event_id for e in event.history.all_events()))
+            return True, None
+
+    class Rec(BoboProducerSubscriber):
+        def __init__(self):
+            self.events = []
+
+        def on_producer_update(self, event, local):
+            self.events.append((tuple(e.event_id for e in event.history.all_events()), local))
+
+    for local_only in (False, True):
+        for order in ('local-first', 'remote-first', 'interleaved'):
+            case = {'serving_forwarder': True, 'local_only': local_only, 'order': order}
+            res.add_case(case, nontrivial=True)
+            res.count('serving_forwarder_cases')
+            log, rec = [], Rec()
+            ph = BoboPhenomenon(name='ph', action=Count('act', log), patterns=[
+                BoboPatternBuilder('p').followed_by(lambda e, h: e.data == 0).followed_by(lambda e, h: e.data == 1).generate()])
+            ids, ts = BoboGenEventIDUnique(), BoboGenTimestampEpoch()
+            eng = BoboEngine(receiver=BoboReceiver(BoboValidatorAll(), ids, ts), decider=BoboDecider([ph], ids, BoboGenEventIDUnique()),
+                             producer=BoboProducer([ph], ids, ts),
+                             forwarder=BoboForwarder([ph], BoboActionHandlerBlocking(), ids, ts, local_only=local_only))
+            eng.producer.subscribe(rec)
+
+            def local_run():
+                eng.receiver.add_data(0)
+                for _ in range(4):
+                    eng.update()
+                eng.receiver.add_data(1)
+                for _ in range(8):
+                    eng.update()
+
+            def remote_run(k):
+                eng.decider.on_distributed_update(completed=[BoboRunSerial(f'peer{k}', 'ph', 'p', 2, BoboHistory({'': [
+                    BoboEventSimple(f'x{k}a', 1, 0), BoboEventSimple(f'x{k}b', 2, 1)]}))], halted=[], updated=[])
+                for _ in range(8):
+                    eng.update()
+            try:
+                plan = {'local-first': 'LLRR', 'remote-first': 'RRLL', 'interleaved': 'LRLR'}[order]
+                for k, w in enumerate(plan):
+                    local_run() if w == 'L' else remote_run(k)
+            except Exception as e:      # noqa
+                res.violations.append(Violation('component-raised', f"{case}: {type(e).__name__}: {e}", case))
+                continue
+            from collections import Counter
+            pub, ran = Counter(k for k, _ in rec.events), Counter(log)
+            loc = {k for k, l in rec.events if l}
+            if any(v > 1 for v in pub.values()) or len(pub) != 4:
+                res.violations.append(Violation('completed-twice', f"{case}: complex events per run {dict(pub)} (4 runs finished, one each expected)", case))
+            elif any(v > 1 for v in ran.values()):
+                k = next(k for k, v in ran.items() if v > 1)
+                res.violations.append(Violation('action-executed-twice', f"{case}: the action ran {ran[k]} times for the {'locally' if k in loc else 'remotely'} "
+                                                f"completed run {k}", case))
+            elif local_only and set(ran) - loc:
+                res.violations.append(Violation('remote-completion-executed-action', f"{case}: action executed for completions learned from a peer", case))
+
+
 def run(ctx: Ctx) -> Result:
     res = Result()
+    if ctx.replay is None or ctx.replay['replay'].get('serving_forwarder'):
+        serving_forwarder_cases(res)
+        if ctx.replay is not None:
+            return res
     if ctx.replay is None or ctx.replay['replay'].get('bounded_engine'):
         bounded_engine_cases(res)
         if ctx.replay is not None:
@@ -162,9 +248,10 @@ SPEC = PropSpec(
     prop='C05', extra_props=['C05All'], translators=['deciderfrag'], run=run, search=search,
     rule='singleton families (a merged SYNC naming the sender\'s finished run and the receiver\'s adopted run; random fault schedules over singleton patterns), merged-backlog family (one failed or unacknowledged send, then the run finishes, then the merged SYNC; 2 and 3 instances), '
          'the C04 racing-pair family, and seeded random schedules with and without link faults and clock advances (8-40 ops, 2-3 '
-         'instances); the oracle runs after every elementary step including each pass and delivery inside sync/heal',
+         'instances); the oracle runs after every elementary step including each pass and delivery inside sync/heal; '
+         'engines with a forwarder that serves peers\' completions too (local_only=False) and with bounded task queues',
     trusted_base=['harness/cluster.py in-memory network double'],
-    assumptions=['finished-run memory enabled and larger than the number of runs finished in the scenario', 'default local_only=True forwarder'],
+    assumptions=['finished-run memory enabled and larger than the number of runs finished in the scenario', 'cluster scenarios: default local_only=True forwarder (local_only=False: serving_forwarder_cases)'],
     model_covers='filter of remote completed/halted/updated against the finished-run memory, precedence inside one remote update, '
                  'local-only action dispatch',
 )
